@@ -485,3 +485,123 @@ class Float___ge__(Contract):
 
     def raises(self, other):
         return {}
+
+
+# ---------------------------------------------------------------------------
+# hash (H3): assumed stdlib model  hash(int i) == hash(Fraction(i)) == H(i);  hash(float('inf')) == sys.hash_info.inf == 314159
+
+class Float___hash__(Contract):
+    target = 'fpy2.number.number.floats:Float.__hash__'
+    params = {'self': 'Float'}
+    returns = 'int'
+    properties = ['C05']
+    note = 'assumed: hash(+-inf) of a Python float is +-sys.hash_info.inf (314159); H as for RealFloat.__hash__'
+
+    def post(self, result):
+        return {
+            # a finite Float hashes as the rational it denotes (so as the equal int / Fraction / RealFloat)
+            'finite': implies(fl_finite(self), result == hashq(t_val_q(trip(self)))),
+            # infinities hash as the Python floats +-inf they are equal to
+            'inf': implies(self._isinf, result == ite(self._real._s, -314159, 314159)),
+        }
+
+    def raises(self):
+        return {}
+
+
+# ---------------------------------------------------------------------------
+# normalisation / splitting (H4)
+
+class Float_normalize_n(Contract):
+    target = 'fpy2.number.number.floats:Float.normalize'
+    params = {'self': 'Float', 'p': 'int | None', 'n': 'int'}
+    returns = 'Float'
+    properties = ['C05']
+    split = ['p']
+
+    def post(self, p, n, result):
+        r = result
+        out = {
+            'wf': r._real._c >= 0 and not (r._isinf and r._isnan),
+            'class': r._isnan == self._isnan and r._isinf == self._isinf,
+            'sign': r._real._s == self._real._s,
+            'value': implies(fl_finite(self), t_mag_eq(trip(r), trip(self))),
+            'ctx_kept': same_obj(r._ctx, self._ctx),
+        }
+        if p is None:
+            out.update({'exp_is_n_plus_1': implies(fl_finite(self), r._real._exp == n + 1)})
+        else:
+            out.update({'above_n': implies(fl_finite(self), r._real._exp > n),
+                        'at_most_p_digits': implies(fl_finite(self), bl(r._real._c) <= p)})
+        return out
+
+    def raises(self, p, n):
+        return {'ValueError': (p is not None and p < 0)
+                              or (fl_finite(self) and ((p is not None and not fits_p(self._real, p)) or not on_grid(self._real, n)))}
+
+
+class Float_normalize_p(Contract):
+    target = 'fpy2.number.number.floats:Float.normalize'
+    params = {'self': 'Float', 'p': 'int', 'n': 'None'}
+    returns = 'Float'
+    properties = ['C05']
+
+    def post(self, p, n, result):
+        r = result
+        return {
+            'wf': r._real._c >= 0 and not (r._isinf and r._isnan),
+            'class': r._isnan == self._isnan and r._isinf == self._isinf,
+            'sign': r._real._s == self._real._s,
+            'value': implies(fl_finite(self), t_mag_eq(trip(r), trip(self))),
+            'exactly_p_digits': implies(fl_finite(self) and self._real._c != 0, bl(r._real._c) == p),
+            'ctx_kept': same_obj(r._ctx, self._ctx),
+        }
+
+    def raises(self, p, n):
+        return {'ValueError': p < 0 or (fl_finite(self) and not fits_p(self._real, p))}
+
+
+class Float_split(Contract):
+    target = 'fpy2.number.number.floats:Float.split'
+    params = {'self': 'Float', 'n': 'int'}
+    returns = 'tuple[Float, Float]'
+    properties = ['C05']
+    options = {'solve_eqs': True}
+
+    def post(self, n, result):
+        hi, lo = result
+        fin = fl_finite(self)
+        return {
+            'class': hi._isnan == self._isnan and lo._isnan == self._isnan and hi._isinf == self._isinf and lo._isinf == self._isinf,
+            'sign': hi._real._s == self._real._s and lo._real._s == self._real._s,
+            'wf': hi._real._c >= 0 and lo._real._c >= 0,
+            # hi + lo == self exactly; hi holds only digits above n, lo only digits at or below n
+            'sum': implies(fin, t_is_sum(trip(self), trip(hi), trip(lo))),
+            'hi_above': implies(fin, hi._real._exp > n),
+            'lo_below': implies(fin, lo._real._c == 0 or e_of(lo._real) <= n),
+            'ctx_kept': same_obj(hi._ctx, self._ctx) and same_obj(lo._ctx, self._ctx),
+        }
+
+    def raises(self, n):
+        return {}
+
+
+class Float_same_value(Contract):
+    target = 'fpy2.number.number.floats:same_value'
+    params = {'a': 'Float | None', 'b': 'Float | None'}
+    returns = 'bool'
+    properties = ['C05']
+    split = ['a', 'b']
+
+    def post(a, b, result):
+        if a is None or b is None:
+            return {'none': result == (a is None and b is None)}
+        nar = a._isnan or a._isinf or b._isnan or b._isinf
+        return {
+            # same class and sign for NaN / infinities; same value and sign (any encoding) for finite values
+            'special': implies(nar, result == (a._isnan == b._isnan and a._isinf == b._isinf and a._real._s == b._real._s)),
+            'finite': implies(not nar, result == t_same(trip(a), trip(b))),
+        }
+
+    def raises(a, b):
+        return {}
